@@ -18,8 +18,8 @@ def run(tier="quick", seed=0):
     from hio.base import filing
     from hio import hioing
     rnd = random.Random(seed)
-    names = ["plain", "a.b", "nest/ed", "./dot", "../up", "x/../../y", ""]
-    bases = ["", "base", "../b", "b/../.."]
+    names = ["plain", "a.b", "nest/ed", "./dot", "../up", "x/../../y", "", "..", "a/.."]
+    bases = ["", "base", "../b", "b/../..", "..", "../..", "../../.."]
     flags = list(itertools.product([False, True], repeat=4))   # temp, clean, filed, extensioned
     steps = ["close-clear", "reopen-clear", "reopen-temp-clear", "close"]
     cases = [(n, b, f, st) for n in names for b in bases for f in flags for st in steps]
@@ -126,6 +126,6 @@ def run(tier="quick", seed=0):
         os.makedirs, os.remove, shutil.rmtree, tempfile.mkdtemp = real["makedirs"], real["remove"], real["rmtree"], real["mkdtemp"]
         shutil.rmtree(sandbox, ignore_errors=True)
     return dict(evaluations=evals, distinct_nontrivial=len(distinct), samples=samples, violations=viol,
-                rule="names {plain, a.b, nest/ed, ./dot, ../up, x/../../y, ''} x bases {'', base, ../b, b/../..} x temp x clean x filed x extensioned, each followed by "
+                rule="names {plain, a.b, nest/ed, ./dot, ../up, x/../../y, '', .., a/..} x bases {'', base, ../b, b/../.., .., ../.., ../../..} x temp x clean x filed x extensioned, each followed by "
                      "close(clear) / reopen(clear) / reopen(temp=True, clear=True) / close; every filesystem call of the Filer is checked against the sandbox head",
                 exhaustive=(tier != "quick"))
